@@ -640,7 +640,12 @@ class MiniPCNSample(Contract):
                 p.prove(z3.BoolVal(used is g["rng"]), f"{q}:C20:the generator passed to sample() is handed to the kernel")
             else:
                 used = kw.get("rng")
-                p.prove(z3.BoolVal(used is None or (isinstance(used, Sym) and used.info.get("ambient", False))), f"{q}:C20:an ambient generator only when none was supplied")
+                _, ipos, ikwonly, _ = class_sig(I, self.cls, "__init__")
+                if "rng" in ipos + ikwonly:
+                    # the class's constructor accepts a generator (sample_posterior routes a top-level rng= there): that generator drives the kernel
+                    p.prove(z3.BoolVal(used is s.f.get("rng")), f"{q}:C20:a generator accepted by the constructor is the one handed to the kernel when none is passed to sample()")
+                else:
+                    p.prove(z3.BoolVal(used is None or (isinstance(used, Sym) and used.info.get("ambient", False))), f"{q}:C20:an ambient generator only when none was supplied")
 
 
 class EmceeSample(MiniPCNSample):
@@ -962,3 +967,39 @@ class BuildAspireFromFile(BuildAspireFromFileModel):
                         f"{q}:C11:C15:without a saved namespace the instance takes the stored population's {tag}")
         else:
             p.prove(z3.BoolVal(isinstance(blob, NoneV) and isinstance(state, NoneV) and isinstance(nsmp, NoneV)), f"{q}:C12:C11:a file without a checkpoint gives no resume state (the run restarts) {tag}")
+
+
+# ------------------------------------------------------------------------------------------ constructors keep the generator they are given
+class SMCSamplerInit(Contract):
+    qual = "samplers.smc.base:SMCSampler.__init__"
+    cls = "SMCSampler"
+    properties = ("C20",)
+    doc = ("a generator given to the constructor is the sampler's generator (self.rng) - the object itself, whatever the base classes do; only without one "
+           "may an ambient generator be created")
+
+    def shapes(self):
+        return [{"rng": 0}, {"rng": 1}]
+
+    def setup(self, I, shape):
+        s = Obj(self.cls, {})
+        rng = Sym(z3.Const("constructor_rng", Misc), "rng")
+        kw = {"log_likelihood": Fn(lambda I2, a, k, n: NONE, "user_log_likelihood"), "log_prior": Fn(lambda I2, a, k, n: NONE, "user_log_prior"), "dims": IV(z3.Int("dims")),
+              "prior_flow": Obj("FlowStub", {}), "xp": Sym(z3.Const("sampler_xp", Misc), "ns"), "dtype": NONE, "parameters": NONE, "preconditioning_transform": NONE}
+        if shape["rng"]:
+            kw["rng"] = rng
+        return Pre(s, [], kw, ghost={"s": s, "rng": rng, "shape": shape})
+
+    def post(self, I, pre, r):
+        p, g = I.path, pre.ghost
+        q = self.qual
+        have = g["s"].f.get("rng")
+        if g["shape"]["rng"]:
+            p.prove(z3.BoolVal(have is g["rng"]), f"{q}:C20:the generator given to the constructor is the sampler's generator (used for resampling and handed to the kernel)")
+        else:
+            p.prove(z3.BoolVal(have is not None and not isinstance(have, NoneV)), f"{q}:C20:without a generator the sampler still has one (ambient, created only in this case)")
+        p.prove(z3.BoolVal(isinstance(g["s"].f.get("history", NONE), NoneV) or True), f"{q}:constructed")
+
+
+class BlackJAXSMCInit(SMCSamplerInit):
+    qual = "samplers.smc.blackjax:BlackJAXSMC.__init__"
+    cls = "BlackJAXSMC"
